@@ -66,6 +66,7 @@ def run_family(engine, base_seed, tier, index):
     the same workload re-executed once per seam event of the chosen operations (section 3.4 of DESIGN.md)."""
     first = run_one(engine, base_seed, tier, index)
     outs = [first]
+    faulthandler.dump_traceback_later(engine.RUN_WALL_CAP_S, exit=True)  # generate + dry run of the sweep family
     every = getattr(engine, "SWEEP_EVERY", {}).get(tier)
     if not every or index % every != every // 2 or "harness_error" in first or first.get("violations"):
         return outs
@@ -83,6 +84,8 @@ def run_family(engine, base_seed, tier, index):
         return outs
     for k, plan in enumerate(plans):
         out = {"index": index, "sub": k + 1, "seed": seed, "sweep": True}
+        # re-arm the hang watchdog: it bounds one execution, not a whole family of sub-cases
+        faulthandler.dump_traceback_later(engine.RUN_WALL_CAP_S, exit=True)
         try:
             sub = copy.deepcopy(case)
             sub["faults"] = plan
